@@ -4,6 +4,7 @@ import (
 	"fmt"
 	"go/ast"
 	"go/types"
+	"strings"
 )
 
 func init() {
@@ -281,6 +282,10 @@ func boundsPass(c *Ctx, report bool) {
 					} else if r, ok := boundsExemptUnits[bd.name]; ok {
 						exemptUsed["unit:"+bd.name] = true
 						c.ok(key, ob.node.Pos(), false, "reviewed exemption (unit handles server-built data only): %s", r)
+					} else if owner, r := inheritedUnitExemption(c, fn); owner != "" {
+						// a helper that only an exempt unit calls works on the same server-built data
+						exemptUsed["unit:"+owner] = true
+						c.ok(key, ob.node.Pos(), false, "reviewed exemption inherited from its only caller %s: %s", owner, r)
 					} else {
 						c.bad(key, ob.node.Pos(), "%s: %s — a short or empty client argument reaches this expression and the server process panics", ob.desc, ob.why)
 					}
@@ -471,4 +476,30 @@ func ruleMessageNonEmpty(c *Ctx) {
 		}
 	}
 	c.stat("message_construction_sites", n)
+}
+
+// inheritedUnitExemption: fn is called only from the function that owns a unit exemption (it is a piece of
+// that function moved into a helper); returns the owner's key and reason.
+func inheritedUnitExemption(c *Ctx, fn *FuncInfo) (string, string) {
+	if _, own := boundsExemptUnits[funcName(fn.Obj)]; own {
+		return "", ""
+	}
+	for key, reason := range boundsExemptUnits {
+		if strings.Contains(key, "$") {
+			continue
+		}
+		// the declared function behind the key: its plain name is the part after the last '.'
+		name := key[strings.LastIndex(key, ".")+1:]
+		for f := range c.calledOnlyFrom(name) {
+			if f == fn.Obj && f.Name() != name {
+				// make sure the seed really is the exempt unit (same qualified name)
+				for g := range c.calledOnlyFrom(name) {
+					if funcName(g) == key {
+						return key, reason
+					}
+				}
+			}
+		}
+	}
+	return "", ""
 }
